@@ -12,7 +12,8 @@ import os
 
 import vlib
 
-NEG = [("MC_Ages_ringstaleindex.cfg", "ring-stale-index"), ("MC_Ages_counterwrap.cfg", "counter-wrap"), ("MC_Ages_budgetleak.cfg", "budget-leak")]
+NEG = [("MC_Ages_ringstaleindex.cfg", "ring-stale-index"), ("MC_Ages_counterwrap.cfg", "counter-wrap"), ("MC_Ages_budgetleak.cfg", "budget-leak"),
+       ("MC_Ages_ringswept.cfg", "ring-swept")]
 
 ALL = ("honest", "refused", "same", "probe")
 # kind -> (operations per phase quick, thorough; scales; phases the kind has)
@@ -60,6 +61,9 @@ def run(ctx, kinds):
     ctx.model_check("Ages", "MC_Ages.cfg", workers=4)
     for cfg, dev in NEG:
         ctx.model_check("Ages", cfg, workers=1, expect_violation="Invariant Ageless is violated")
+    # "ring-swept": the wrong answer lives in a window (OldIsRightAgain holds there, and fails for the unswept ring) - the
+    # reason a schedule is run at several scales
+    ctx.model_check("Ages", "MC_Ages_ringswept_window.cfg", workers=4)
     scheds = []
     for b in ctx.generate("Ages", cfg="Gen_Ages.cfg", workers=1, raw=True):
         s = [x.strip().strip('"') for x in b.strip("<>").split(",") if x.strip()]
